@@ -269,11 +269,38 @@ func (vc *VC) constGlobal(g *ssa.Global) *Term {
 			}
 		}
 	}
+	elemT := g.Type().(*types.Pointer).Elem()
+	if _, isIface := elemT.Underlying().(*types.Interface); isIface && init != nil {
+		// interface variable initialised once with a value of a concrete type:
+		// its dynamic type is known (the payload only for constant conversions)
+		it := p.TypesInfo.Types[init].Type
+		if it == nil {
+			return nil
+		}
+		if _, isI := it.Underlying().(*types.Interface); isI {
+			return nil
+		}
+		name := vc.fresh("cst_" + g.Name())
+		vc.declare(name, SIface)
+		vc.assume(fmt.Sprintf("(= (i-tag %s) %d)", name, vc.typeTag(it)))
+		if call, ok := init.(*ast.CallExpr); ok && len(call.Args) == 1 {
+			if tv := p.TypesInfo.Types[call.Fun]; tv.IsType() {
+				if cv := p.TypesInfo.Types[call.Args[0]].Value; cv != nil {
+					box, unbox := vc.boxFns(it)
+					c := vc.constTerm(cv, it)
+					vc.assume("(= (i-val " + name + ") (" + box + " " + c.S + "))")
+					vc.assume("(= (" + unbox + " (i-val " + name + ")) " + c.S + ")")
+				}
+			}
+		}
+		vc.lits[key] = name
+		vc.note("package variable " + g.String() + " treated as constant (no store outside its initialiser)")
+		return &Term{name, SIface, elemT}
+	}
 	cl, ok := init.(*ast.CompositeLit)
 	if !ok {
 		return nil
 	}
-	elemT := g.Type().(*types.Pointer).Elem()
 	var et types.Type
 	switch u := elemT.Underlying().(type) {
 	case *types.Array:
